@@ -122,7 +122,7 @@ type yamlParseError struct {
 }
 
 func (err *yamlParseError) Error() string {
-	var index int
+	index := -1
 	var message string
 	var pe *yaml.ParserError
 	var te *yaml.TypeError
@@ -137,7 +137,18 @@ func (err *yamlParseError) Error() string {
 			}
 		}
 	}
-	linestr, line, column := getLineByOffset(err.contents, index+1)
+	if index < 0 { // the error has no position
+		return "invalid yaml: " + err.fname + ": " + err.err.Error()
+	}
+	// The index counts characters, not bytes.
+	offset := len(err.contents)
+	for i := range err.contents {
+		if index--; index < 0 {
+			offset = i
+			break
+		}
+	}
+	linestr, line, column := getLineByOffset(err.contents, offset+1)
 	return fmt.Sprintf("invalid yaml: %s:%d\n%s  %s",
 		err.fname, line, formatLineInfo(linestr, line, column), message)
 }
